@@ -506,6 +506,20 @@ def long_span_smiles(rng):
     return out
 
 
+def ring_bond_span_smiles():
+    """every kind of ring-closure bond symbol (=, #, and / \\ marks on the opening digit, the closing digit or both)
+    on ring spans that need one, two and three index symbols: the product ring-symbol kind x L = 1, 2, 3"""
+    out = []
+    for n in (3, 20, 300):
+        mid = "C" * n
+        out += ["C=1" + mid + "C1", "C1" + mid + "C=1", "C#1" + mid + "C1",
+                "C/1=C/" + mid + "C\\1", "C/1=C/" + mid + "C1", "C1=C/" + mid + "C\\1",
+                "C\\1=C\\" + mid + "C/1", "C/1=C/" + mid + "C/1", "C\\1=C/" + mid + "C1",
+                "F/C=C/1" + mid + "C\\1", "F/C=C\\1" + mid + "C/1",
+                "C\\1=C\\" + mid + "C\\1", "C1=C\\" + mid + "C/1"]
+    return out
+
+
 # --------------------------------------------------------------------------- G-encoding
 
 def random_vocab(rng, with_dot=None, with_nop=True):
